@@ -113,12 +113,13 @@ def markOne (c : Site) : Site := if qualifies c then { c with managed := true } 
 /-- markQualifiedForAutoHTTPS -/
 def markQualified (cs : List Site) : List Site := cs.map markOne
 
-/-- one iteration of enableAutoHTTPS(configs, false) -/
+/-- one iteration of enableAutoHTTPS(configs, false): a managed, not on-demand site gets TLS enabled, scheme https and,
+if it has no port (and is not manual, and is not `localhost`), the HTTPS port -/
 def enableOne (c : Site) : Site :=
   if !c.managed || !c.hasManager || c.onDemand then c
   else
-    let c := { c with enabled := true, scheme := b!"https" }
-    if c.port.isEmpty && (!c.manual || c.onDemand) && c.host != b!"localhost" then { c with port := httpsPort } else c
+    { c with enabled := true, scheme := b!"https",
+             port := if c.port.isEmpty && (!c.manual || c.onDemand) && c.host != b!"localhost" then httpsPort else c.port }
 
 def enableAutoHTTPS (cs : List Site) : List Site := cs.map enableOne
 
@@ -132,21 +133,27 @@ def hostHasOtherPort (all : List Site) (idx : Nat) (other : Bytes) : Option Bool
         | some o => o.host == this.host && o.port == other
         | none => false)
 
+/-- what the redirect handler captures for an HTTPS site served on `port`: the HTTPS port is not written into URLs -/
+def capturedPort (port : Bytes) : Bytes := if port == httpsPort then [] else port
+
 /-- redirPlaintextHost: the plaintext site that redirects to `c`.  The captured `redirPort` is the port `c` will be
 served on: its explicit port, else the default port when `c` brings its own or a self-signed certificate and is not
 on-demand (MakeServers leaves such a site on the default port), else empty; the HTTPS port is written as empty. -/
 def redirPlaintextHost (c : Site) : Site :=
   let rp := if c.port.isEmpty && (c.manual || c.selfSigned) && !(c.hasManager && c.onDemand) then defaultPort else c.port
   { host := c.host, port := httpPort, listen := c.listen, hasManager := c.hasManager,
-    redir := some (if rp == httpsPort then [] else rp) }
+    redir := some (capturedPort rp) }
+
+/-- what makePlaintextRedirects requires of a site by itself: TLS on, no_redirect off, not declared as plain HTTP -/
+def wantsRedirect (c : Site) : Bool :=
+  c.enabled && !c.noRedirect && c.scheme != b!"http" && c.port != httpPort
 
 /-- the loop of makePlaintextRedirects: `i` runs over the ORIGINAL configs (`todo`), while
 hostHasOtherPort looks at the list as grown so far (`all`) — the append-while-ranging behaviour of the Go code. -/
 def redirectsGo : List Site → Nat → List Site → List Site
   | [], _, all => all
   | c :: todo, i, all =>
-    let want := c.enabled && !c.noRedirect &&
-      c.scheme != b!"http" && c.port != httpPort &&
+    let want := wantsRedirect c &&
       hostHasOtherPort all i httpPort == some false &&
       (c.port == httpsPort || hostHasOtherPort all i httpsPort == some false)
     redirectsGo todo (i + 1) (if want then all ++ [redirPlaintextHost c] else all)
@@ -154,13 +161,16 @@ def redirectsGo : List Site → Nat → List Site → List Site
 /-- makePlaintextRedirects -/
 def makePlaintextRedirects (cs : List Site) : List Site := redirectsGo cs 0 cs
 
-/-- the per-site loop body of MakeServers (first loop), for configs with a certmagic manager -/
+/-- the per-site loop body of MakeServers (first loop), for configs with a certmagic manager: a TLS site declared as plain
+HTTP (HTTP port or scheme http) gets TLS switched off, otherwise an empty scheme becomes https; then an empty port becomes
+the HTTPS port unless the site brings its own or a self-signed certificate (and is not on-demand) -/
 def makeServersOne (c : Site) : Site :=
   if !c.enabled then c
   else
-    let c := if c.port == httpPort || c.scheme == b!"http" then { c with enabled := false }
-             else if c.scheme.isEmpty then { c with scheme := b!"https" } else c
-    if c.port.isEmpty && ((!c.manual && !c.selfSigned) || c.onDemand) then { c with port := httpsPort } else c
+    let plain := c.port == httpPort || c.scheme == b!"http"
+    { c with enabled := !plain,
+             scheme := if !plain && c.scheme.isEmpty then b!"https" else c.scheme,
+             port := if c.port.isEmpty && ((!c.manual && !c.selfSigned) || c.onDemand) then httpsPort else c.port }
 
 /-- groupSiteConfigsByListenAddr's side effect: an empty port becomes the default port -/
 def defaultPortOne (c : Site) : Site := if c.port.isEmpty then { c with port := defaultPort } else c
